@@ -169,6 +169,28 @@ def req_part(ctx, h, quick, ext=False):
     rm.close(); rm_wd.close(); sess.close()
 
 
+OVERFLOW_PROBES = ["python_full_version == '18446744073709551615.*'", "python_full_version ~= '1.18446744073709551615'", "python_version <= '3.18446744073709551615'"]
+
+
+def overflow_probes(ctx, h):
+    """F6d: u64::MAX release segments (each in a fresh process: the panic poisons the interner)"""
+    for text in OVERFLOW_PROBES:
+        sess = markers.Session(h)
+        ctx.evaluations += 1
+        ctx.oracle_cases += 1
+        r = sess.ask(['parse', S(text)])
+        out = textmodel.impl_parse_outcome(r)
+        ctx.count('overflow-probe:' + out[0])
+        if out[0] == 'panic':
+            cls = reqmodel.panic_class(out[1], text)
+            ctx.failure('MarkerTree::parse_reporter panicked on %r: %s' % (text, out[1]), {'entry': 'MarkerTree::from_str', 'input': text}, cls=cls)
+            a = sess.ask(['parse', S("os_name == 'probe'")])
+            if a[0] != 'ok':
+                ctx.failure('after the panic on %r every later marker operation in the process fails (interner poisoned)' % text,
+                            {'entry': 'MarkerTree::from_str', 'input': text, 'then': "os_name == 'probe'"}, cls='poisoned-after-' + cls)
+        sess.close()
+
+
 def run(ctx):
     ctx.proofs('Props/C06.v')
     build.extract_and_driver()
@@ -256,6 +278,7 @@ def run(ctx):
     tm.close()
     sess.close()
     ctx.extra['oracle_table_fills'] = tm.misses
+    overflow_probes(ctx, h)
     req_part(ctx, h, quick, ext=False)
     req_part(ctx, build.harness(ext=True), quick, ext=True)
     if not ctx.samples:
